@@ -110,7 +110,7 @@ def perms_exhaustive(ck, hcmd, dcmd, n, pairs=None, label=None):
     ck.cov.setdefault("perms_by_n", {})
     ck.cov["perms_by_n"][str(n)] = ck.cov["perms_by_n"].get(str(n), 0) + ncases
     nfail = 0
-    for job in bad[:2]:
+    for job in bad[:1]:
         nfail += 1
         locate_perm_failure(ck, hcmd, dcmd, n, job, label or ("perms n=%d" % n))
     return len(bad)
@@ -161,7 +161,8 @@ def locate_perm_failure(ck, hcmd, dcmd, n, job, label):
                 break
             c, want = m, k2
     cases = [perm_case(n, i, j) for i in range(a, b) for j in range(c, d)][:64]
-    nf = ck.compare_cases(hcmd, dcmd, cases, label="%s insertion-order=%d removal-order=%d" % (label, a, c))
+    nf = ck.compare_cases(hcmd, dcmd, cases, label="%s insertion-order=%d removal-order=%d" % (label, a, c),
+                          max_failures=1)
     if nf == 0:
         # the explicit expansion agrees although the hashed run did not: report the tie as broken
         ck.report("int", {"label": label, "ops": ["perms %d %d %d %d %d" % (n, a, b, c, d)],
@@ -196,8 +197,8 @@ def run_cases_parallel(ck, hcmd, dcmd, cases, label, chunk=None):
             else:
                 bad.append(g)
     nfail = 0
-    for g in bad[:3]:
-        nfail += ck.compare_cases(hcmd, dcmd, g, label=label)   # counts, shrinks, reports
+    for g in bad[:2]:
+        nfail += ck.compare_cases(hcmd, dcmd, g, label=label, max_failures=2)   # counts, shrinks, reports
     return nfail
 
 
@@ -319,8 +320,20 @@ def random_cases(ck, rng, stats):
     # large
     for _ in range(ck.scale(4, 32)):
         n = ck.scale(2000, 10000)
-        cases.append(gen_random(rng, 3 * n, 2 * n, stats, phases=((0.55, 70), (0.45, 12))))
+        cases.append(gen_random(rng, 3 * n, 2 * n, stats, phases=((0.6, 76), (0.4, 8))))
     return cases
+
+
+def finish_counts(ck):
+    ck.cov["distinct_nontrivial"] = ck.cov.get("perms_cases", 0) + len(ck._distinct)
+
+
+def found_concrete(ck):
+    """a concrete failing input (observable difference) has been found: no need to go on"""
+    if any(v["kind"] == "obs" for v in ck.violations):
+        ck.cov["stopped_after_first_concrete_violation"] = True
+        return True
+    return False
 
 
 # ---------------------------------------------------------------------- run
@@ -360,6 +373,8 @@ def run(ck):
     nmax = ck.scale(6, 7)
     for n in range(1, nmax + 1):
         perms_exhaustive(ck, hcmd, dcmd, n)
+        if found_concrete(ck):
+            return finish_counts(ck)
     ck.cov["exhaustive"] = True
     ck.cov["exhaustive_scope"] = "all insertion orders x all removal orders of n keys, n = 1..%d" % nmax
     if not ck.quick():
@@ -377,6 +392,9 @@ def run(ck):
     for (n, i, j) in ((3, 4, 1), (6, 517, 233)):
         ck.sample({"perms": {"n": n, "insertion_order": i, "removal_order": j}, "ops": perm_case(n, i, j)})
 
+    if found_concrete(ck):
+        return finish_counts(ck)
+
     # 2. adversarial runs
     sizes = ck.scale([1, 2, 3, 7, 8, 15, 16, 31, 33, 64, 100, 255, 500, 2000],
                      [1, 2, 3, 7, 8, 15, 16, 31, 33, 64, 100, 255, 256, 1000, 4095, 10000])
@@ -390,6 +408,9 @@ def run(ck):
     ck.cov["run_sizes"] = sizes
     ck.cov["run_patterns"] = [p[0] for p in run_patterns(4)]
     ck.sample({"run": "alt/inner N=6", "ops": pattern_case(run_patterns(6)[11][1], run_patterns(6)[11][2], 3)})
+
+    if found_concrete(ck):
+        return finish_counts(ck)
 
     # 3. random histories
     stats = {k: 0 for k in ("ins_new", "ins_dup", "rem_present", "rem_absent", "find", "walk", "count",
@@ -406,7 +427,9 @@ def run(ck):
     ck.cov["noop_fraction_of_mutating_ops"] = round(noop / max(1, mut), 3)
     ck.sample({"random": small[-1][:40]})
 
-    ck.cov["distinct_nontrivial"] = ck.cov.get("perms_cases", 0) + len(ck._distinct)
+    finish_counts(ck)
+    if found_concrete(ck):
+        return
 
     # 4. something broke (a theorem, the build, or an internal-only difference): search harder
     only_int = ck.violations and not any(v["kind"] == "obs" for v in ck.violations)
@@ -424,7 +447,7 @@ def run(ck):
         more.sort(key=len, reverse=True)
         run_cases_parallel(ck, hcmd, dcmd, [c for c in more if len(c) > 1500], "random-large+", chunk=1)
         run_cases_parallel(ck, hcmd, dcmd, [c for c in more if len(c) <= 1500], "random+")
-    ck.cov["distinct_nontrivial"] = ck.cov.get("perms_cases", 0) + len(ck._distinct)
+    finish_counts(ck)
     if not ck.quick():
         ck.leanchecker(PROP_MODULES)
 
